@@ -432,6 +432,82 @@ func (ff *FuncFacts) Fwd(v ssa.Value) ssa.Value {
 					v = r.V
 					continue
 				}
+				// a field read from a by-value copy of a struct that was assembled field by
+				// field (composite literal → copy → field): the value stored into the field
+				if r, ok := ff.fwd[x]; ok && len(r.Rest) > 0 {
+					base := r.V
+					for j := 0; j < 4; j++ {
+						if b, ok := base.(*ssa.UnOp); ok && b.Op == token.MUL {
+							if rr, ok := ff.fwd[b]; ok && len(rr.Rest) == 0 {
+								base = rr.V
+								continue
+							}
+						}
+						break
+					}
+					if c, ok := base.(*ssa.Call); ok && len(r.Rest) == 1 && !c.Common().IsInvoke() && len(c.Common().Args) == 2 {
+						if sc := c.Common().StaticCallee(); sc != nil && sc.Name() == "NewCoin" && sc.Signature.Recv() == nil {
+							if p := fnPkg(sc); p != nil && strings.HasSuffix(p.Path(), "cosmos-sdk/types") {
+								switch fieldName(c.Type(), r.Rest[0]) {
+								case "Denom":
+									v = c.Common().Args[0]
+									continue
+								case "Amount":
+									v = c.Common().Args[1]
+									continue
+								}
+							}
+						}
+					}
+					if ld, ok := base.(*ssa.UnOp); ok && ld.Op == token.MUL {
+						if m, ok := ff.agg[ld]; ok {
+							names := ""
+							t := ld.Type()
+							for _, fi := range r.Rest {
+								names += "." + fieldName(t, fi)
+								t = fieldType(t, fi)
+							}
+							if sv, ok := m[names]; ok && sv != nil && sv != unknownValue {
+								v = sv
+								continue
+							}
+						}
+					}
+				}
+			}
+		case *ssa.Field:
+			// a field of a freshly constructed coin: NewCoin(d, a).Denom is d, .Amount is a
+			if c, ok := x.X.(*ssa.Call); ok && !c.Common().IsInvoke() && len(c.Common().Args) == 2 {
+				if sc := c.Common().StaticCallee(); sc != nil && sc.Name() == "NewCoin" && sc.Signature.Recv() == nil {
+					if p := fnPkg(sc); p != nil && strings.HasSuffix(p.Path(), "cosmos-sdk/types") {
+						switch fieldName(x.X.Type(), x.Field) {
+						case "Denom":
+							v = c.Common().Args[0]
+							continue
+						case "Amount":
+							v = c.Common().Args[1]
+							continue
+						}
+					}
+				}
+			}
+			// a field of a struct value that was assembled field by field in a local (a
+			// composite literal handed on by value): the value stored into that field
+			base := x.X
+			if i < 19 {
+				if b, ok := base.(*ssa.UnOp); ok && b.Op == token.MUL {
+					if r, ok := ff.fwd[b]; ok && len(r.Rest) == 0 {
+						base = r.V // the whole struct was copied from another value
+					}
+				}
+			}
+			if ld, ok := base.(*ssa.UnOp); ok && ld.Op == token.MUL {
+				if m, ok := ff.agg[ld]; ok {
+					if sv, ok := m["."+fieldName(x.X.Type(), x.Field)]; ok && sv != nil && sv != unknownValue {
+						v = sv
+						continue
+					}
+				}
 			}
 		case *ssa.ChangeType:
 			v = x.X
@@ -1344,4 +1420,105 @@ func (ff *FuncFacts) CasesOf(v ssa.Value, at ssa.Instruction, depth int) []Value
 		out = append(out, ValueCase{ff.Fwd(e), fs})
 	}
 	return out
+}
+
+// MemCases unfolds a load from a local struct variable that is assigned on several paths
+// (`h := T{a: x}; if c { h = T{a: y} }; use(h.a)`): one case per store that can be the last
+// one before the load, with the value it leaves in the loaded field and the facts that held
+// at that store.  ok is false when the value is not such a load or a reaching store's field
+// value cannot be named.
+func (ff *FuncFacts) MemCases(v ssa.Value) ([]ValueCase, bool) {
+	ld, ok := v.(*ssa.UnOp)
+	if !ok || ld.Op != token.MUL {
+		return nil, false
+	}
+	base, path := addrPath(ld.X)
+	al, ok := base.(*ssa.Alloc)
+	if !ok || al.Referrers() == nil || len(path) == 0 {
+		return nil, false
+	}
+	names := ""
+	t := al.Type().Underlying().(*types.Pointer).Elem()
+	for _, fi := range path {
+		names += "." + fieldName(t, fi)
+		t = fieldType(t, fi)
+	}
+	type def struct {
+		st  *ssa.Store
+		val ssa.Value
+	}
+	var defs []def
+	var collect func(addr ssa.Value)
+	collect = func(addr ssa.Value) {
+		if addr.Referrers() == nil {
+			return
+		}
+		for _, r := range *addr.Referrers() {
+			switch x := r.(type) {
+			case *ssa.FieldAddr:
+				collect(x)
+			case *ssa.Store:
+				if x.Addr != addr {
+					continue
+				}
+				sb, sp := addrPath(x.Addr)
+				if sb != base {
+					continue
+				}
+				sk := pathKey(sp)
+				pk := pathKey(path)
+				switch {
+				case sk == pk:
+					defs = append(defs, def{x, x.Val})
+				case sk == "" || strings.HasPrefix(pk, sk+"."):
+					// a store of an enclosing aggregate: the field value inside it
+					var fv ssa.Value
+					if agg, ok := x.Val.(*ssa.UnOp); ok && agg.Op == token.MUL {
+						if m, ok := ff.agg[agg]; ok {
+							rest := names
+							if sk != "" {
+								// strip the enclosing part of the name path
+								tt := al.Type().Underlying().(*types.Pointer).Elem()
+								pre := ""
+								for _, fi := range sp {
+									pre += "." + fieldName(tt, fi)
+									tt = fieldType(tt, fi)
+								}
+								rest = strings.TrimPrefix(names, pre)
+							}
+							if sv, ok := m[rest]; ok && sv != nil && sv != unknownValue {
+								fv = sv
+							}
+						}
+					}
+					defs = append(defs, def{x, fv})
+				}
+			}
+		}
+	}
+	collect(al)
+	if len(defs) < 2 {
+		return nil, false
+	}
+	isDef := func(in ssa.Instruction) bool {
+		for _, d := range defs {
+			if in == ssa.Instruction(d.st) {
+				return true
+			}
+		}
+		return false
+	}
+	var out []ValueCase
+	for _, d := range defs {
+		// can d be the last store before the load?
+		_, reaches := ReachesWithout(ff.Fn, d.st, func(in ssa.Instruction) bool { return in == ssa.Instruction(ld) }, isDef)
+		if !reaches {
+			continue
+		}
+		if d.val == nil {
+			return nil, false
+		}
+		out = append(out, ValueCase{ff.Fwd(d.val), ff.At(d.st)})
+	}
+	return out, len(out) > 0
 }
